@@ -88,6 +88,7 @@ def run_case(case):
                'hooks': {'testSetUp': 'ok', 'testTearDown': 'ok'}}]
     tests = []
     tokens = {}        # token -> (test index, stream)
+    swaps = []
     for i, kind in enumerate(case['seq']):
         t = {'name': 'test_%02d' % i, 'kind': kind, 'actions': []}
         if kind == 'subtests':
@@ -117,6 +118,14 @@ def run_case(case):
             t['actions'].append(act)
             tokens[tok] = (i, stream, ph, style)
         t['actions'].append({'ph': 'body', 'do': 'probe_streams'})
+        if case['buffer'] and kind == 'pass' and rng.random() < 0.15:
+            # a passing test that leaves its own StringIO installed (only
+            # with --buffer: there the runner puts the real streams back);
+            # everything it wrote must stay hidden, also from the reports of
+            # later tests
+            t['actions'].append({'ph': 'body_end', 'do': 'swap_stream',
+                                 'stream': rng.choice(['stdout', 'stderr'])})
+            swaps.append(i)
         tests.append(t)
     spec = gen.simple_world(prefix, layers, {'Top': tests})
     opts = {'verbose': case['verbose']}
@@ -239,6 +248,7 @@ def run_case(case):
     if nt:
         sig = [case['seq'], sorted((v[0], v[1], v[2], v[3])
                                    for v in tokens.values()), opts]
+    C('stream_swapping_tests', len(swaps))
     return {'viol': viol, 'evals': 1, 'sig': sig, 'counters': counters,
             'sample': {'seq': case['seq'], 'opts': opts,
                        'tokens': {k: list(v) for k, v in
